@@ -107,7 +107,7 @@ Print Assumptions C03_refines_dense_complex.
 Definition ex_env := env_of [(1, [[0;1;2];[2;1;3]]); (2, [[0;1];[3;2]])].
 Definition ex_ops : list (op Z) :=
   [OAssembly Z 0 2 [(1, (Some (map Z.of_nat (seq 0 72)), None, None, Some [1;2;3;4;5;6;7;8;9;10;11;12]))];
-   OAddBc Z (BLag 0); OAddBc Z (BDir 0 2%nat); OClear Z; OSetMesh Z ex_env 4; ONeedUpdate Z].
+   OAddBc Z (BLag 0); OAddBc Z (BDir 0 [1;1;3]); OClear Z; OSetMesh Z ex_env 4; ONeedUpdate Z].
 Definition ex_s0 := {| s_env := ex_env; s_Nn := 4; s_bcs := []; s_cache := [] |}.
 
 Lemma nodes_ok_b Nn g :
